@@ -28,6 +28,20 @@ def gen12(rng):
     if base["Xdev"] is not None:
         base["ydev"] = encs(relabel(base["Xdev"], base["ydev"]))
     base["carver"] = "multiclass"
+    # custom sentinel strings (kwargs) must reach the per-class carvers; rare categories make the
+    # default group visible in the labels
+    base["kwargs"] = {}
+    if rng.random() < 0.4:
+        base["kwargs"] = rng.choice([{"str_default": "RARE"}, {"str_nan": "MISSING"},
+                                     {"str_default": "RARE", "str_nan": "MISSING"}])
+    if base["ftype"] == "categ" and rng.random() < 0.6:
+        X = list(base["X"])
+        for i in rng.sample(range(len(X)), min(len(X), rng.randint(1, 3))):
+            if X[i] != ["nan"]:
+                X[i] = enc(rng.choice(["zz", "yy"]))
+        base["X"] = X
+        if rng.random() < 0.5:
+            base["output_dtype"] = "str"
     if rng.random() < 0.6 and base["min_freq_mod"] is None:
         base["min_freq_mod"] = rng.choice([base["min_freq"], base["min_freq"] / 4, base["min_freq"] * 0.8])
     return base
@@ -69,6 +83,7 @@ class C12(Prop):
         out["classes"] = classes
         kw = dict(min_freq=case["min_freq"], max_n_mod=case["max_n_mod"], min_freq_mod=case["min_freq_mod"],
                   dropna=case["dropna"], output_dtype=case["output_dtype"], copy=True, verbose=False)
+        kw.update(case.get("kwargs", {}))
         ft = case["ftype"]
         if ft == "quant":
             kw["quantitative_features"] = [F]
